@@ -110,6 +110,16 @@ def run(chk: Check):
         r.ev.append({"ev": "chunk", "cfgs": cfgs, "chunk": ch})
         traces.append(r.trace(kind="chunk"))
 
+    # ... and for long epochs (common divisors in the thousands)
+    for g in ([1001, 1500, 2200, 2500, 4999] if chk.quick else [1001, 1250, 1333, 1500, 1999, 2000, 2200, 2300, 2500, 2600, 2900,
+                                                                   3000, 4999, 7001, 12500]):
+        cfgs = [D.cfg_rec(0, 1, 1), D.cfg_rec(1, g * rng.randint(1, 3), 1), D.cfg_rec(4, g * rng.randint(1, 4), 1)]
+        r = D.Recorder()
+        for c in cfgs:
+            r.append(c)
+        r.ev.append({"ev": "chunk", "cfgs": cfgs, "chunk": D.builder_chunk([D.mk(c) for c in cfgs])})
+        traces.append(r.trace(kind="chunk"))
+
     def nontrivial(t):
         n_ok = sum(1 for e in t["ev"] if e["ev"] == "append" and e["accepted"])
         return n_ok >= 2 or any(e["ev"] == "stan" and not e["raised"] for e in t["ev"])
